@@ -1,6 +1,7 @@
 //! Correspondence / search harness: calls the real `asca` crate (built from /repo's working tree with
 //! `--features verif`) in-process and prints canonical lines that `/verif/check` diffs against the Lean
 //! model driver, or evaluates a property directly on the implementation (search).
+mod c04;
 mod c18;
 mod gen;
 mod runner;
@@ -14,6 +15,8 @@ fn main() {
         "c18-enum" => c18::enumerate(rest),
         "c18-laws" => c18::laws(rest),
         "tables" => util::dump_tables(rest),
+        "c04-ops" => c04::ops(rest),
+        "c04-spec" => c04::spec(rest),
         "runner" => runner::main(rest),
         "gen-stats" => runner::gen_stats(rest),
         _ => { eprintln!("unknown command {cmd:?}"); 2 }
